@@ -385,11 +385,18 @@ def run_harness(pkg, args, lines, timeout=600, procs=None, env=None):
 # Known findings, evidence, decision
 # ------------------------------------------------------------------------------------------------
 
-def known_findings(prop_id):
-    p = os.path.join(ROOT, "KNOWN_FINDINGS.json")
-    if not os.path.exists(p):
-        return []
-    return [f for f in json.load(open(p))["findings"] if f["property"] == prop_id]
+def known_findings(prop_id=None):
+    """Findings are committed one per file under findings/ (never written at run time)."""
+    d = os.path.join(ROOT, "findings")
+    out = []
+    if os.path.isdir(d):
+        for f in sorted(os.listdir(d)):
+            if f.endswith(".json"):
+                j = json.load(open(os.path.join(d, f)))
+                for x in (j if isinstance(j, list) else [j]):
+                    if prop_id is None or x["property"] == prop_id:
+                        out.append(x)
+    return out
 
 
 def write_evidence(prop_id, ev):
